@@ -905,3 +905,63 @@ func (x *Exec) builderSlice(st *State, v Val) SliceVal {
 	x.fail("strings.Builder in an unexpected state (%T)", st.Cells[p.Obj])
 	return SliceVal{}
 }
+
+// ---- math/bits: Len / LeadingZeros / TrailingZeros -----------------------------------------------------------------------
+
+// bitLenTerm: minimum number of bits to represent the w-bit unsigned value v (0 for v == 0), as an int-typed term.
+func (x *Exec) bitLenTerm(v *Term, w int) *Term {
+	o := x.o
+	res := o.ConstI(tyInt, 0)
+	for k := 1; k <= w; k++ {
+		// v >= 2^(k-1)  ==>  length at least k
+		var ge *Term
+		if o.M.BV {
+			ge = o.BVCmp("bvuge", v, o.BV(new(big.Int).Lsh(big.NewInt(1), uint(k-1)), v.Sort.W))
+		} else {
+			ge = o.Ge(v, o.IntBig(new(big.Int).Lsh(big.NewInt(1), uint(k-1))))
+		}
+		res = o.Ite(ge, o.ConstI(tyInt, int64(k)), res)
+	}
+	return res
+}
+
+// trailingZerosTerm: number of trailing zero bits of the w-bit unsigned value v (w for v == 0).
+func (x *Exec) trailingZerosTerm(v *Term, w int) *Term {
+	o := x.o
+	res := o.ConstI(tyInt, int64(w))
+	for k := w - 1; k >= 0; k-- {
+		// the low k+1 bits are exactly 2^k  <==>  k trailing zeros
+		var is *Term
+		if o.M.BV {
+			mask := new(big.Int).Sub(new(big.Int).Lsh(big.NewInt(1), uint(k+1)), big.NewInt(1))
+			is = o.Eq(o.BVOp("bvand", v, o.BV(mask, v.Sort.W)), o.BV(new(big.Int).Lsh(big.NewInt(1), uint(k)), v.Sort.W))
+		} else {
+			is = o.Eq(o.Mod(v, o.IntBig(new(big.Int).Lsh(big.NewInt(1), uint(k+1)))), o.IntBig(new(big.Int).Lsh(big.NewInt(1), uint(k))))
+		}
+		res = o.Ite(is, o.ConstI(tyInt, int64(k)), res)
+	}
+	return res
+}
+
+func init() {
+	for _, wv := range []struct {
+		suffix string
+		w      int
+	}{{"64", 64}, {"32", 32}, {"16", 16}, {"8", 8}} {
+		w := wv.w
+		extSchemas["math/bits.Len"+wv.suffix] = func(x *Exec, st *State, fn *ssa.Function, args []Val, c *ssa.CallCommon) Val {
+			return x.bitLenTerm(args[0].(*Term), w)
+		}
+		extSchemas["math/bits.LeadingZeros"+wv.suffix] = func(x *Exec, st *State, fn *ssa.Function, args []Val, c *ssa.CallCommon) Val {
+			o := x.o
+			l := x.bitLenTerm(args[0].(*Term), w)
+			if o.M.BV {
+				return o.BVOp("bvsub", o.ConstI(tyInt, int64(w)), l)
+			}
+			return o.Sub(o.ConstI(tyInt, int64(w)), l)
+		}
+		extSchemas["math/bits.TrailingZeros"+wv.suffix] = func(x *Exec, st *State, fn *ssa.Function, args []Val, c *ssa.CallCommon) Val {
+			return x.trailingZerosTerm(args[0].(*Term), w)
+		}
+	}
+}
